@@ -26,6 +26,7 @@ TYPES = (None, '', 'date', 'month', 'week', 'time', 'datetime-local', 'number', 
 VALS_Q = (None, '', '2020-02-29', '2019-W53', '0999-W01', '10000-W10', '10:30', '2020-01-01T10:00', '5', 'x', '1e3', '4' * 4300 + '-01-01')
 VALS_T = VALS_Q + ('2019-W00', '2019-W54', '2020-02-30', '25:00', '24:00', '-', '.5.', '-.5', '0000-01-01', '0000-W01', '2020-13', '2020-00-10',
                    '4' * 4300, '4' * 4300 + '-W01', '١٢', '2020-01-01\n', ' 5', '5 ', '+5', '99999-12-31', '1' * 400)
+EXOTIC = ('\ud800', '\udfff\ud800', 'a\x00b', '\U0010ffff', '\u0130', '\u212a', '\xdf', '\x85', '\u2028')
 KINDS = ('input', 'button', 'select', 'option', 'textarea', 'fieldset', 'form', 'progress', 'a', 'p', 'bdi', 'iframe', 'legend', 'optgroup')
 
 
@@ -82,6 +83,16 @@ def focus_elements(tier):
                 for tx in ((), (('t', '\n'),), (('t', 'x'),)):
                     out.append(el(k, (('placeholder', ph), ('value', v), ('readonly', None if v else ''), ('contenteditable', ph)), tx))
         out.append(el(k, (('href', 'u'), ('indeterminate', ''), ('selected', ''), ('type', 'checkbox' if k == 'input' else 'submit'))))
+    # exotic string content (still plain `str`): lone surrogates, NUL, the last code point, characters whose case mappings change length or
+    # leave ASCII (U+0130, U+212A, U+00DF), in every attribute the matcher reads and in tag and attribute names
+    for x in EXOTIC:
+        for k in ('input', 'p', 'bdi', 'option'):
+            out.append(el(k, (('type', x), ('dir', x), ('lang', x), ('name', x), ('min', x), ('max', x), ('value', x), ('placeholder', x), ('class', (x, 'a')), ('id', x)),
+                          (('t', x),)))
+            for a in ('type', 'dir', 'lang', 'name', 'value', 'contenteditable', 'href'):
+                out.append(el(k, ((a, x), ('type' if a != 'type' else 'min', 'radio' if a == 'name' else 'text' if a in ('dir', 'value') else x)), (('t', x),)))
+        out.append(el('x' + x, (('a' + x, 'v'), ('dir', 'auto')), (('t', x), ('e', x + 'y', ((x, x),), ()))))
+        out.append(el('input', ((x, x), ('type', 'date'), ('min', '2020-01-01'), ('value', '2020-01-01' + x))))
     return out
 
 
